@@ -257,6 +257,10 @@ def _unbacktick(ch, a: int, b: int) -> str:
 Token = Tuple[str, object]
 
 
+def _is_ws(c: str) -> bool:
+    return c == ' ' or c == '\n' or c == '\t' or c == '\r' or c == '\ufeff'
+
+
 def _has_dcolon(ch, a: int, b: int) -> bool:
     """'::' occurs in ch[a:b]"""
     i = a
@@ -291,6 +295,16 @@ def lex_one(text: str) -> Optional[Token]:
     Works on a list of characters with concrete indices: under symbolic
     execution every step is then a comparison of single characters."""
     ch = list(text)
+    # skip_whitespace(): BOM, CR, TAB, LF and SPACE between tokens (comments,
+    # which start with '#', are outside this model)
+    a = 0
+    while a < len(ch) and _is_ws(ch[a]):
+        a += 1
+    b = len(ch)
+    while b > a and _is_ws(ch[b - 1]):
+        b -= 1
+    if a > 0 or b < len(ch):
+        ch = ch[a:b]
     n = len(ch)
     if n == 0:
         return None
